@@ -890,3 +890,4 @@ package cbor
 //@   ensures [C08] ncalls(time.Unix) == old(ncalls(time.Unix)) + 1
 //@   ensures [C08] ncalls(decodeInteger) == old(ncalls(decodeInteger)) + 1 ==> callarg(time.Unix, old(ncalls(time.Unix)), 0) == callres(decodeInteger, old(ncalls(decodeInteger)), 0) && callarg(time.Unix, old(ncalls(time.Unix)), 1) == 0
 //@   ensures [C08] ncalls(decodeFloat) == old(ncalls(decodeFloat)) + 1 ==> callarg(time.Unix, old(ncalls(time.Unix)), 0) == ftoi64(callres(decodeFloat, old(ncalls(decodeFloat)), 0))
+//@   ensures [C08] ncalls(decodeFloat) == old(ncalls(decodeFloat)) + 1 ==> callarg(time.Unix, old(ncalls(time.Unix)), 1) == ftoi64(fmul(fsub(callres(decodeFloat, old(ncalls(decodeFloat)), 0), itof64(ftoi64(callres(decodeFloat, old(ncalls(decodeFloat)), 0)))), fconst("1e9", 64)))
